@@ -599,6 +599,14 @@ func checkTags(e *Env, p *load.Program, pk *packages.Package) {
 	nFields := 0
 	for _, n := range order {
 		st := n.Underlying().(*types.Struct)
+		// a struct type of the policy with its own marshaller or unmarshaller: the document is then produced (or read) by
+		// code, not by the field tags these rules compare - whether that code keeps the policy is not decided here (seed
+		// C14i: `Policy.MarshalYAML` writing a "compact" form that merges non-adjacent groups with the same action)
+		for _, mname := range []string{"MarshalYAML", "MarshalJSON", "MarshalText", "UnmarshalYAML", "UnmarshalJSON", "UnmarshalText", "Unpack"} {
+			if hasMethod(n, mname) {
+				r.Unknown("E4.tags", n.Obj().Name()+"/custom-"+mname, p.Pos(n.Obj().Pos()), fmt.Sprintf("struct type %s defines %s: what is written to or read from a document is decided by that method, not by the struct tags; the round trip through the configuration path is not decided for it", n.Obj().Name(), mname))
+			}
+		}
 		for i := 0; i < st.NumFields(); i++ {
 			f := st.Field(i)
 			if !f.Exported() {
